@@ -74,7 +74,7 @@ def run(ctx):
              "(member of the log, value equals the answer there, no smaller answer) from outside, inside OnEndIteration, "
              "inside OnMethodStop of a Solve twin and on the returned Solution; non-trivial = executions whose optimum "
              "moved after the first trial or whose minimum value is attained by several trials",
-        exhaustive=True, bounds=solverexp.describe(tasks),
+        exhaustive=True, bounds=solverexp.describe(tasks), resolution_horizon_stops=agg["horizon_stops"],
         samples=[dict(cfg=t["cfg"], alphabet=t.get("alphabet"), prefix=t.get("prefix"), depth=t.get("depth"))
                  for t in tasks[:2]] + rtasks[:2],
     )
